@@ -151,8 +151,10 @@ def driver(plan, cfg, shell_header, replies=None):
 def show_val(typ, k):
     """what verif::show prints for Val<typ>::make(k)"""
     t = typ.replace(' ', '')
-    if t in ('int', 'size_t', 'std::size_t', 'double'):
+    if t in ('int', 'size_t', 'std::size_t'):
         return str(k)
+    if t == 'double':
+        return f'{4 * k + 1}/4'
     if t == 'bool':
         return str(k % 2)
     if t == 'std::string':
